@@ -280,13 +280,16 @@ def defuse(body):
 class Tracer:
     """Backward value-origin slicing (PROV)."""
 
-    def __init__(self, facts, through_closures=True, extra_identity=None, max_nodes=20000):
+    def __init__(self, facts, through_closures=True, extra_identity=None, max_nodes=20000, drop_identity=()):
         self.facts = facts
         self.through_closures = through_closures
         self.extra_identity = extra_identity or {}
         self.max_nodes = max_nodes
+        self.drop_identity = set(drop_identity)
 
     def _identity(self, term):
+        if term.callee in self.drop_identity:
+            return None
         for n in (term.callee, term.resolved):
             if n in self.extra_identity:
                 return self.extra_identity[n]
